@@ -289,6 +289,11 @@ func fnLcs(ctx *cmdContext, args map[string]any) (output respValue, err error) {
 		return
 	}
 
+	if hasIdx && hasLength {
+		output.data = respErrorString("ERR If you want both the length and indexes, please just use IDX.")
+		return
+	}
+
 	// a missing key is an empty string; the requested reply form (LEN, IDX) still applies
 	empty := ""
 	for i := range vals {
